@@ -402,6 +402,8 @@ def vsubst(v, sub):
     if isinstance(v, VObj) and v.term is not None:
         o = VObj(v.tag, z3.substitute(v.term, *sub), v.attrs, v.origin)
         return o
+    if isinstance(v, VObj) and v.tag == "np_repeat":
+        return VObj(v.tag, None, {a: vsubst(x, sub) for a, x in v.attrs.items()}, v.origin)
     if isinstance(v, VList) and isinstance(v.content, ConcreteSeq):
         return VList(ConcreteSeq([vsubst(x, sub) for x in v.content.items]), v.kind)
     if isinstance(v, VList) and isinstance(v.content, SymSeq):
